@@ -80,7 +80,17 @@ static void Handle(const json& c, vh::Report& r) {
       const auto got = form->Emplace(KindOf(op["k"]), DefText(op["d"]));
       if (got != op["fresh"].get<EntityUID>()) r.Drift("C09", "Emplace returned another identifier", wit, { {"step", step}, {"got", got} }); }
     else if (o == "InsertCopy") { const auto& rj = op["rec"][0]; g_uids.push_back(op["fresh"].get<EntityUID>()); pool.insert(op["fresh"].get<EntityUID>()); pool.insert(rj["uid"].get<EntityUID>());
-      (void)form->InsertCopy(RecordOf(rj)); renames = true; }
+      // the four overloads (record, constituent of another schema, and both bulk forms with one element) have one meaning
+      const auto rec = RecordOf(rj); const int variant = static_cast<int>((c["hist"].size() + step) % 4);
+      auto donor = std::make_unique<RSForm>();
+      bool viaDonor = false;
+      if (variant == 1 || variant == 3) { const auto saved = g_uids; g_uids.clear(); const auto du = donor->InsertCopy(rec); g_uids = saved;
+        viaDonor = du == rec.uid && donor->GetRS(du).alias == rec.alias; }          // the donor keeps identifier and alias only when the alias is well-formed
+      if (viaDonor && variant == 1) { (void)form->InsertCopy(rec.uid, donor->Core()); r.Count("insertcopy.from-schema"); }
+      else if (viaDonor && variant == 3) { (void)form->InsertCopy(VectorOfEntities{ rec.uid }, donor->Core()); r.Count("insertcopy.bulk-from-schema"); }
+      else if (variant == 2) { (void)form->InsertCopy(std::vector<ConceptRecord>{ rec }); r.Count("insertcopy.bulk-records"); }
+      else { (void)form->InsertCopy(rec); r.Count("insertcopy.record"); }
+      renames = true; }
     else if (o == "Erase") { refusable = true; result = form->Erase(u); if (wasTracked && result) r.Violation("C09", "tracked constituent erased", wit, { {"step", step} }); }
     else if (o == "SetAlias") { refusable = true; result = form->SetAliasFor(u, op["a"].get<std::string>(), op["b"].get<bool>()); renames = true; }
     else if (o == "SetExpression") { refusable = true; result = form->SetExpressionFor(u, DefText(op["d"]));
